@@ -1207,6 +1207,10 @@ def run(ctx):
     h9b(ctx)
     h12(ctx)
     h13(ctx)
+    # recorded defects of the builders that end a comparison with a traceback for valid input of a supported type
+    from .c18 import r18d, r18i
+    r18d(ctx)         # a YAML document with a recursive alias (`&l [1, 2, *l]`) recurses until RecursionError
+    r18i(ctx)         # a pickled dict with two tuple keys cannot be sorted while it is loaded
     h10_release(ctx, cg)
     h11_leaf_domains(ctx, roots)
     h6_copy(ctx, reach)
